@@ -819,6 +819,20 @@ def part_fit(ctx, impl, rng, quick):
             else:
                 opts = random_options(rng, algo, kind, nr, nc)
             plan.append((algo, kind, nr, nc, t, fam, opts, fb))
+    # a pendant node hanging on a clique, beside a second small clique, at resolutions around 1 (where the pendant node and its
+    # neighbour may or may not end up together): Leiden's refinement and aggregation must still return a partition
+    for s_ in ((4, 3), (7, 0), (5, 3)) if quick else ((4, 3), (7, 0), (5, 3), (6, 4), (4, 0), (5, 5)):
+        big, small = s_
+        E_ = [(0, 1)] + [(i, j) for i in range(1, big + 1) for j in range(i + 1, big + 1)]
+        E_ += [(big + 1 + i, big + 1 + j) for i in range(small) for j in range(i + 1, small)]
+        n_ = 1 + big + small
+        t_ = [(i, j, 1) for (i, j) in gen.sym(E_)]
+        for algo in ('louvain', 'leiden'):
+            for mod_ in ('dugue', 'newman', 'potts'):
+                for res_ in (1, 1.02, 1.05, 1.5):
+                    opts = dict(modularity=mod_, resolution=res_, shuffle_nodes=False, random_state=0, sort_clusters=True,
+                                return_probs=True, return_aggregate=True, n_aggregations=-1)
+                    plan.append((algo, 'undirected', n_, n_, t_, 'pendant_clique', opts, False))
     items = []
     errors = {}
     for (algo, kind, nr, nc, t, fam, opts, fb) in plan:
@@ -849,6 +863,12 @@ def part_fit(ctx, impl, rng, quick):
             # "After fit ..." — a fit that raises is outside C05's statement (C17 owns termination / crashes); recorded only
             key = '%s:%s' % (algo, r.get('err') or ('hang' if r.get('hang') else 'crash'))
             errors[key] = errors.get(key, 0) + 1
+            if algo in ('louvain', 'leiden', 'propagation') and r.get('err') in ('ValueError', 'IndexError', 'KeyError', 'TypeError') and t:
+                # ... except an exception of the library's own making on a valid graph with at least one edge and valid options:
+                # no node receives a label at all
+                ctx.violation({'louvain': 'Louvain.fit', 'leiden': 'Leiden.fit', 'propagation': 'PropagationClustering.fit'}[algo],
+                              'fit raised %s on a valid graph (no clustering is returned): %s' % (r.get('err'), str(r.get('msg'))[:120]),
+                              case=args, algo=algo, check='fit_raises', observed=r.get('err'))
             if len(errors) <= 6 and errors[key] == 1:
                 ctx.notes.append('first %s: %s' % (key, str(r.get('msg'))[:160]))
             continue
